@@ -117,6 +117,12 @@ package op
 
 //@ func op.CreateAccessToken
 //@   requires valid(tokenRequest) && valid(creator)
+//@   ensures opaque-format: err == nil && accessTokenType != AccessTokenTypeJWT ==> called("op.Crypto.Encrypt")
+//@        && callarg("op.Crypto.Encrypt", 0) == concat(callres("op.createTokens", 0), ":", tokenRequest.GetSubject()) && accessToken == callres("op.Crypto.Encrypt", 0)
+//@   ensures jwt-format: err == nil && accessTokenType == AccessTokenTypeJWT ==> called("op.CreateJWT") && accessToken == callres("op.CreateJWT", 0)
+//@        && callarg("op.CreateJWT", 2) == tokenRequest && callarg("op.CreateJWT", 4) == callres("op.createTokens", 0) && callarg("op.CreateJWT", 3) == callres("op.createTokens", 2)
+//@        && callarg("op.CreateJWT", 1) == callres("op.IssuerFromContext", 0)
+//@   ensures validity: err == nil ==> validity == callres("op.createTokens", 2) + ite(client != nil, client.ClockSkew(), 0) - now(1)
 //@   ensures exchange-refresh: err == nil && implements(tokenRequest, "TokenExchangeRequest") && !implements(tokenRequest, "AuthRequest")
 //@        && as(tokenRequest, "TokenExchangeRequest").GetRequestedTokenType() == oidc.RefreshTokenType ==> newRefreshToken != ""
 //@   ensures rotation: err == nil && implements(tokenRequest, "RefreshTokenRequest")
@@ -124,12 +130,44 @@ package op
 //@        ==> rotated(refreshToken, newRefreshToken)
 //@   ensures storage-fail-closed: !old(storageFailed) && storageFailed ==> err != nil
 
+// ID token claims handed to the signer (from the statement): issuer of this request, subject /
+// azp / audience / nonce of the underlying request, exp = now + skew + lifetime, at_hash / c_hash over
+// exactly the access token and code delivered alongside, signed with the storage's current signing key.
 //@ func op.CreateIDToken
 //@   requires valid(request) && valid(storage) && valid(client)
+//@   ensures signed-claims: err == nil ==> typeis(callarg("crypto.Sign", 0), "*oidc.IDTokenClaims") && callarg("crypto.Sign", 0, "*oidc.IDTokenClaims") == callres("oidc.NewIDTokenClaims", 0)
+//@        && result0 == callres("crypto.Sign", 0)
+//@   ensures claims-from-request: err == nil ==> callarg("oidc.NewIDTokenClaims", 0) == issuer && callarg("oidc.NewIDTokenClaims", 1) == request.GetSubject()
+//@        && callarg("oidc.NewIDTokenClaims", 8) == request.GetClientID() && callarg("oidc.NewIDTokenClaims", 4) == request.GetAuthTime()
+//@        && callarg("oidc.NewIDTokenClaims", 7) == request.GetAMR() && callarg("oidc.NewIDTokenClaims", 2) == request.GetAudience()
+//@        && callarg("oidc.NewIDTokenClaims", 9) == client.ClockSkew()
+//@        && (implements(request, "AuthRequest") ==> callarg("oidc.NewIDTokenClaims", 5) == as(request, "AuthRequest").GetNonce())
+//@        && (!implements(request, "AuthRequest") ==> callarg("oidc.NewIDTokenClaims", 5) == "")
+//@   ensures lifetime: err == nil ==> callarg("oidc.NewIDTokenClaims", 3) == now(1) + client.ClockSkew() + validity
+//@   ensures at-hash-input: err == nil && accessToken != "" ==> called("oidc.ClaimHash") && callarg("oidc.ClaimHash#1", 0) == accessToken
+//@        && callarg("oidc.ClaimHash#1", 1) == callres("op.AuthStorage.SigningKey", 0).SignatureAlgorithm() && callres("oidc.ClaimHash#1", 1) == nil
+//@   ensures at-hash-stored: err == nil && accessToken != "" ==> callarg("crypto.Sign", 0, "*oidc.IDTokenClaims").AccessTokenHash == callres("oidc.ClaimHash#1", 0)
+//@   ensures no-at-hash-without-token: err == nil && accessToken == "" ==> callarg("crypto.Sign", 0, "*oidc.IDTokenClaims").AccessTokenHash == ""
+//@   ensures c-hash-input: err == nil && code != "" ==> called("oidc.ClaimHash#2") && callarg("oidc.ClaimHash#2", 0) == code
+//@        && callarg("oidc.ClaimHash#2", 1) == callres("op.AuthStorage.SigningKey", 0).SignatureAlgorithm() && callres("oidc.ClaimHash#2", 1) == nil
+//@   ensures c-hash-stored: err == nil && code != "" ==> callarg("crypto.Sign", 0, "*oidc.IDTokenClaims").CodeHash == callres("oidc.ClaimHash#2", 0)
+//@   ensures no-c-hash-without-code: err == nil && code == "" ==> callarg("crypto.Sign", 0, "*oidc.IDTokenClaims").CodeHash == ""
+//@   ensures signing-key: err == nil ==> callres("op.AuthStorage.SigningKey", 1) == nil && callarg("op.SignerFromKey", 0) == callres("op.AuthStorage.SigningKey", 0)
+//@        && callarg("crypto.Sign", 1) == callres("op.SignerFromKey", 0)
+//@   ensures userinfo-scopes: err == nil && called("op.OPStorage.SetUserinfoFromScopes") && accessToken != "" && !client.IDTokenUserinfoClaimsAssertion()
+//@        ==> callarg("op.OPStorage.SetUserinfoFromScopes", 4) == callres("op.removeUserinfoScopes", 0)
 //@   ensures storage-fail-closed: !old(storageFailed) && storageFailed ==> err != nil
 
+// JWT access token claims handed to the signer.
 //@ func op.CreateJWT
 //@   requires valid(tokenRequest) && valid(storage) && valid(client)
+//@   ensures signed-claims: err == nil ==> typeis(callarg("crypto.Sign", 0), "*oidc.AccessTokenClaims") && callarg("crypto.Sign", 0, "*oidc.AccessTokenClaims") == callres("oidc.NewAccessTokenClaims", 0)
+//@        && result0 == callres("crypto.Sign", 0)
+//@   ensures claims-from-request: err == nil ==> callarg("oidc.NewAccessTokenClaims", 0) == issuer && callarg("oidc.NewAccessTokenClaims", 1) == tokenRequest.GetSubject()
+//@        && callarg("oidc.NewAccessTokenClaims", 2) == tokenRequest.GetAudience() && callarg("oidc.NewAccessTokenClaims", 3) == exp
+//@        && callarg("oidc.NewAccessTokenClaims", 4) == id && callarg("oidc.NewAccessTokenClaims", 5) == client.GetID()
+//@   ensures signing-key: err == nil ==> callres("op.AuthStorage.SigningKey", 1) == nil && callarg("op.SignerFromKey", 0) == callres("op.AuthStorage.SigningKey", 0)
+//@        && callarg("crypto.Sign", 1) == callres("op.SignerFromKey", 0)
 //@   ensures storage-fail-closed: !old(storageFailed) && storageFailed ==> err != nil
 
 //@ func op.RefreshTokenRequestByRefreshToken
@@ -999,3 +1037,25 @@ package op
 //@   ensures fail-closed: err != nil ==> result0 == nil && result1 == nil
 //@   ensures valid: err == nil ==> valid(result0) && valid(result1)
 //@   ensures storage-fail-closed: !old(storageFailed) && storageFailed ==> err != nil
+
+// ---- C06: issued tokens ----
+
+// The signer carries the storage's signing key wrapped as a JWK with its key id (so that issued
+// tokens name the key the published key set lists) and the key's algorithm.
+//@ func op.SignerFromKey
+//@   requires valid(key)
+//@   modifies nothing
+//@   ensures fail-closed: err != nil ==> result0 == nil
+//@   ensures valid: err == nil ==> valid(result0)
+//@   ensures key-with-id: typeis(callarg("github.com/go-jose/go-jose/v4.NewSigner", 0).Key, "*jose.JSONWebKey")
+//@        && as(callarg("github.com/go-jose/go-jose/v4.NewSigner", 0).Key, "*jose.JSONWebKey") != nil
+//@        && as(callarg("github.com/go-jose/go-jose/v4.NewSigner", 0).Key, "*jose.JSONWebKey").KeyID == key.ID()
+//@        && as(callarg("github.com/go-jose/go-jose/v4.NewSigner", 0).Key, "*jose.JSONWebKey").Key == key.Key()
+//@        && callarg("github.com/go-jose/go-jose/v4.NewSigner", 0).Algorithm == key.SignatureAlgorithm()
+
+//@ loop op.removeUserinfoScopes#1
+//@   invariant filtered: forall k int :: 0 <= k && k < len(newScopeList) ==> newScopeList[k] != oidc.ScopeProfile && newScopeList[k] != oidc.ScopeEmail && newScopeList[k] != oidc.ScopeAddress && newScopeList[k] != oidc.ScopePhone
+//@   invariant own-storage: fresh(newScopeList)
+//@ func op.removeUserinfoScopes
+//@   modifies nothing
+//@   ensures no-userinfo-scopes: forall k int :: 0 <= k && k < len(result) ==> result[k] != oidc.ScopeProfile && result[k] != oidc.ScopeEmail && result[k] != oidc.ScopeAddress && result[k] != oidc.ScopePhone
